@@ -399,6 +399,21 @@ pub fn bin_all() -> Vec<Scenario> {
         mk("arg", true,
            "b = [0x0102, 0x0304] __binary_concat__,\nf = #'bin { [~, 0x06] __binary_concat__ },\nc = b @f,\nr = !c,\n[r, b]",
            "[0x0102030406, 0x01020304]"),
+        // the same binary reaches the child twice (captured and as the argument); the child drops
+        // one of the two references and keeps, returns or extends the other
+        mk("capture_is_arg_keep_capture", true,
+           "s = [0xaa, 0xbb] __binary_concat__,\nf = #'bin { =x => s },\nc = s @f,\nr = !c,\n[r, s]",
+           "[0xaabb, 0xaabb]"),
+        mk("capture_is_arg_keep_arg", true,
+           "s = [0xaa, 0xbb] __binary_concat__,\nf = #'bin { =x => s __binary_length__, x },\nc = s @f,\nr = !c,\n[r, s]",
+           "[0xaabb, 0xaabb]"),
+        mk("capture_is_arg_late_use", true,
+           "s = [0xaa, 0xbb] __binary_concat__,\nf = #'bin { =x => !'int, [s, [0x01, 0x02] __binary_concat__] __binary_concat__ },\nc = s @f,\n7 c,\n!c",
+           "0xaabb0102"),
+        // a target awaited a second time by the same process after a select on it timed out
+        mk("reawait_after_timeout", true,
+           "p = @{ !'int =x, [0xaa, 0xbb] __binary_concat__ },\na = ! [p, 1],\n0 p,\nr = !p,\n[a, r]",
+           "[[], 0xaabb]"),
         mk("loop", true,
            "f = #['int, 'bin] { =[0, acc] => acc | =[n, acc] => [[n, 1] __integer_subtract__, [acc, 0x01] __binary_concat__] ^ },\np = [3, 0x] @f,\n!p",
            "0x010101"),
@@ -637,6 +652,12 @@ pub fn res_all() -> Vec<Scenario> {
         // fails (on the same worker or another one)
         mk("child_unawaited_fails_by_await", &format!(
             "c = @{{ f = {open}, d = @{{ !'int =x, [1, x] __integer_divide__ }}, 0 d, !d }},\ng = @{{ 5 }},\n!g", open = open)),
+        // a never-awaited owner is killed by an effect that fails: the environment refuses an
+        // operation on a handle it gave away / the backend rejects an operation on a closed one
+        mk("owner_dies_by_refused_effect", &format!(
+            "'hd = Hold[\\File]\n'kt = (@'hd)\nk = @{{ !#'hd =m, !#'hd }},\nc = &k @'kt {{ =kp => g = [0x62, 0, 0] __file_open__, h = {open}, Hold[h] kp, [h, 0, 0x01] __file_write__ }},\nd = @{{ 5 }},\n!d", open = open)),
+        mk("owner_dies_by_backend_error", &format!(
+            "c = @{{ g = [0x62, 0, 0] __file_open__, f = {open}, f __file_close__, [f, 0, 2] __file_read__ }},\nd = @{{ 5 }},\n!d", open = open)),
         // handle sent in a message; the recipient uses it; the sender may no longer
         mk("send", &format!(
             "'rd = Read[\\File]\nr = @{{ !#'rd {{ =Read[f] => [f, 0, 2] __file_read__ }} }},\nf = {open},\n[f, 0, 0x0a0b] __file_write__,\nRead[f] r,\n!r", open = open)),
